@@ -13,7 +13,7 @@ import functools
 from .values import sig
 from .driver import make_exc
 
-ASYNC_FLAVOURS = ("agen", "aclass", "aclass_noclose", "aplain", "agenlike", "aeager", "aproxy", "areiter")
+ASYNC_FLAVOURS = ("agen", "aclass", "aclass_noclose", "aplain", "agenlike", "aeager", "aproxy", "areiter", "alateclose")
 SYNC_FLAVOURS = ("list", "seq", "iter", "tuple", "tuplesub", "reiter")
 SRC_FLAVOURS = ASYNC_FLAVOURS + SYNC_FLAVOURS
 FN_FLAVOURS = ("def", "async", "partial", "obj", "objaw", "falsyobj", "eqobj", "unhashobj", "aeqobj", "gencoro")
@@ -239,6 +239,20 @@ class AProxySource(AClassSource):
     obj = property(lambda self: self._proxy)
 
 
+class ALateCloseSource(AClassSource):
+    """a stream that is opened by its first pull: only from then on does it have an ``aclose`` at all"""
+
+    @property
+    def aclose(self):
+        if not self.pulls:
+            raise AttributeError("aclose")  # nothing has been opened yet
+        return functools.partial(AClassSource.aclose, self)
+
+    @property
+    def released(self):
+        return self.closed or self.exhausted or not self.pulls
+
+
 class _AIterable:
     """async ITERABLE (not an iterator): every ``__aiter__`` call is logged and opens a cursor of its own.
     The first cursor is the double itself; any further one is an independent cursor over the same items."""
@@ -450,6 +464,7 @@ _SRC_CLASSES = {
     "agenlike": AGenLikeSource,
     "aeager": AEagerSource,
     "aproxy": AProxySource,
+    "alateclose": ALateCloseSource,
     "areiter": AReiterSource,
     "reiter": ReiterSource,
     "list": ListSource,
